@@ -416,7 +416,7 @@ def undischarged_sites():
     return und, keys
 
 
-def focus_for(files):
+def focus_for(files, factor=3):
     kinds = []
     for f in files:
         for prefix, ks in FOCUS:
@@ -425,7 +425,7 @@ def focus_for(files):
                     if k not in kinds:
                         kinds.append(k)
                 break
-    return ",".join(kinds) + ":3"
+    return ",".join(kinds) + f":{factor}"
 
 
 # ------------------------------------------------------------------------------------------------
@@ -523,11 +523,14 @@ def run(tier, seed):
         "i32 arithmetic is modelled by unbounded Int; overflow is observed by the harness build (overflow-checks = true) only",
     ]
 
+    run.assumptions = ["well-formed inputs only: finite numbers, non-singular lattice, at least one atom, equal-length arrays, positive finite tolerances",
+                       "a stall is judged against max(10 s, 200 x median request time) in an isolated child process under ulimit -v 4 GB",
+                       "panic-site discharge records are reviewed text, not theorems (except those citing Moyo.C08.* / Moyo.C15.* lemmas)"]
     # ---- exploration
     focus = None
     if unmatched:
         files = sorted({u.split("|")[0] for u in unmatched})
-        focus = focus_for(files)
+        focus = focus_for(files, 2 if tier == "quick" else 3)
         log(f"[c08] {len(unmatched)} undischarged panic sites -> focused exploration {focus}")
     deadline = BASE_DEADLINE
     all_reqs, all_ans = [], []
@@ -694,8 +697,14 @@ def run(tier, seed):
             nontrivial += 1
     cov["evaluations"] = len(all_reqs)
     cov["distinct_nontrivial"] = nontrivial
-    cov["rule"] = ("a request counts when it is distinct and reaches the retry loop (at least one ToleranceHandler::update recorded) or an error "
-                   "path (Err(..) / None returned, or a panic / stall observed)")
+    cov["rule"] = ("requests from harness `c08-gen` (G-wild: random triclinic / nearly singular (volume/|a||b||c| down to 1e-6) / high-symmetry-perturbed / "
+                   "supercell / Hall-number crystals, pairs closer than symprec and coincident atoms of equal or different species, 1..64 atoms, scales "
+                   "1e-3..1e4, symprec 1e-8..5 (0.1 over-represented), angle tolerance Default / Radian 1e-4..1, every Setting incl. Hall numbers "
+                   "-5, 0, 531, i32::MIN, i32::MAX; the same cells with Collinear / NonCollinear moments, both actions, mag_symprec None / 1e-8..5 incl. "
+                   "loose 0.1..3; skewed and elongated bases for the three lattice reductions; HNF/SNF on 3x3, 3xn, 9kx9, 3kx3 shapes; every public "
+                   "table look-up on 30 out-of-range integers) plus malformed Hall symbols (`malformed-gen` mutations, non-ASCII / numeric oddities / "
+                   "random operator combinations); a request counts as non-trivial when it is distinct and reaches the retry loop (at least one "
+                   "ToleranceHandler::update recorded) or an error path (Err(..) / None returned, or a panic / stall observed)")
     cov["outcomes"] = dict(sorted(outcomes.items()))
     cov["error_kinds_hit"] = dict(sorted(errkinds.items()))
     cov["atoms"] = dict(sizes)
